@@ -15,7 +15,12 @@ META = {
              "decision to facts extracted from beacon.go / swamp.go / treasure.go."),
     "note": ("Trusted: Lean kernel (propext, Classical.choice, Quot.sound); extract/c07.go; harness/c07.go; Go's sort.Slice sorts "
              "whenever its less function is a strict weak order; records with equal sort values are compared as sets (ties free). "
-             "Values are modelled by their rank inside their type; timestamps by integers."),
+             "Values are modelled by their rank inside their type; timestamps by integer nanoseconds. Histories are Set (insert / "
+             "in-place update), Delete, IncrementInt64 (in-place value and expiry change), ShiftExpiredTreasures (walks and empties the "
+             "expiration index), close+reload, and reads; PatchTreasures meta, ReindexExpiration and CloneAndDeleteMatching are not "
+             "driven (the latter goes through GetBeacon, whose extracted facts getBeaconServesAllValueTypes=no / "
+             "getBeaconBuildsRequestedType=no say it serves only int64/float64/string value types and always builds them as int64 — "
+             "C11's subject)."),
     "design_ref": "§8 C07",
 }
 
@@ -42,8 +47,7 @@ class Shadow:
         if old is None:
             self.recs[k] = {"t": typ, "v": 0 if typ == "void" else val, "created": c, "updated": u, "expire": e}
             return
-        if typ != "void":        # SetContentVoid on typed content keeps the content (not an index matter)
-            old["t"], old["v"] = typ, val
+        old["t"], old["v"] = typ, (0 if typ == "void" else val)   # a void Set leaves a void treasure
         if c:
             old["created"] = c
         if u:
@@ -53,6 +57,20 @@ class Shadow:
 
     def delete(self, k):
         self.recs.pop(k, None)
+
+    def inc(self, k, delta, e):
+        """IncrementInt64: a missing key / void content starts from 0, int64 content is incremented, any
+        other content type is an error and nothing changes"""
+        if delta == 0:
+            return                      # the gateway refuses IncrementBy == 0
+        r = self.recs.get(k)
+        if r is None:
+            self.recs[k] = {"t": "i64", "v": delta, "created": 0, "updated": 0, "expire": e}
+        elif r["t"] in ("i64", "void"):
+            r["v"] = (r["v"] if r["t"] == "i64" else 0) + delta
+            r["t"] = "i64"
+            if e:
+                r["expire"] = e
 
     def attr(self, idx, k):
         """sort attribute of key k under index idx, or None when the record does not carry it"""
@@ -120,6 +138,69 @@ def canon(sh, q, keys):
     return " ".join(out)
 
 
+VALUE_TYPES = ("i8", "i16", "i32", "i64", "u8", "u16", "u32", "u64", "f32", "f64", "str")
+
+
+class Hist:
+    """What the case did so far, read off the op lines (signature side of a finding)."""
+
+    def __init__(self):
+        self.value_types_read = set()   # value index types asked for
+        self.ever_keys = set()          # every key ever written
+        self.time_updates = {"created": set(), "updated": set(), "expire": set()}  # keys whose timestamp an update set
+        self.value_updates = set()      # keys whose value an update set
+        self.insert_after_value_read = False
+        self.value_read_over_mixed = False   # a value read happened while a record of another type was alive
+
+    def on_set(self, sh, k, c, u, e):
+        if k in sh.recs:
+            for idx, v in (("created", c), ("updated", u), ("expire", e)):
+                if v:
+                    self.time_updates[idx].add(k)
+            self.value_updates.add(k)
+        elif self.value_types_read:
+            self.insert_after_value_read = True
+        self.ever_keys.add(k)
+
+
+def symptom(fid, q, keys, sh, hist):
+    """Is the implementation's rejected page the kind of wrong page finding `fid` produces?
+    Decided from the page, the record of what was written and the ops of the case; never from the
+    model.  Anything a finding does not explain is a VIOLATION."""
+    idx = q[0]
+    nodup = len(set(keys)) == len(keys)
+    live = all(k in sh.recs for k in keys)
+    carriers = all(sh.attr(idx, k) is not None for k in keys)
+    if fid == "C07-value-index-mixed-types":
+        if idx not in VALUE_TYPES:
+            return False
+        if any(k in sh.recs and sh.attr(idx, k) is None for k in keys):
+            return True                 # a record of another content type in the page
+        if any(r["t"] != idx for r in sh.recs.values()) and nodup and live:
+            # records of other types occupy positions of the index: the page is a window of the
+            # right size over ALL live records, only carriers happen to be in it
+            n_all = max(0, len(sh.recs) - q[2])
+            if len(keys) == (min(q[3], n_all) if q[3] else n_all):
+                return True
+        if hist.value_read_over_mixed and all(k in hist.ever_keys for k in keys):
+            # built while another type was alive: a non-strict-weak-order sort whose order survives later
+            # deletes, or (int64 request) a failed build whose debris keeps deleted keys
+            return True
+        # or: the one shared value index was built by a read of another value type (its order, or the
+        # debris of a failed int64 build, is what this read gets) — only keys this case ever wrote
+        return bool(hist.value_types_read - {idx}) and all(k in hist.ever_keys for k in keys)
+    clean = nodup and live and carriers     # a stale index: right kind of records, wrong order / some missing
+    if fid == "C07-updated-update-stale":
+        return idx == "updated" and clean and bool(hist.time_updates["updated"])
+    if fid == "C07-created-update-stale":
+        return idx == "created" and clean and bool(hist.time_updates["created"])
+    if fid == "C07-value-update-stale":
+        return idx in VALUE_TYPES and clean and bool(hist.value_updates)
+    if fid == "C07-value-insert-wrong-comparator":
+        return idx in VALUE_TYPES and idx != "i64" and clean and hist.insert_after_value_read
+    return False
+
+
 def parse_q(f):
     opt = lambda s: None if s == "-" else int(s)
     return (f[1], f[2] == "asc", int(f[3]), int(f[4]), opt(f[5]), opt(f[6]))
@@ -130,28 +211,50 @@ def judge(c):
     rewrite c.model / c.flags / c.mismatch accordingly.  Returns statistics and the list of
     oracle violations that no model line accounts for."""
     sh = Shadow()
-    stats = {"queries": 0, "exact": 0, "nd": 0, "impl_bad_pages": 0, "by_index": {}, "windowed": 0, "paged": 0,
-             "ties_cut": 0, "noswamp": 0}
+    hist = Hist()
+    stats = {"queries": 0, "exact": 0, "nd": 0, "impl_bad_pages": 0, "bad_pages_by_finding": {}, "by_index": {}, "windowed": 0,
+             "paged": 0, "ties_cut": 0, "noswamp": 0}
     unexplained = []
     mism = []
     n = max(len(c.ops), len(c.impl), len(c.model))
+    pending_vt, pending_mixed, pending_shift = None, False, False
     for i in range(n):
         op = c.ops[i] if i < len(c.ops) else ""
         impl = c.impl[i] if i < len(c.impl) else "<missing>"
         model = c.model[i] if i < len(c.model) else "<missing>"
         flags = c.flags[i] if i < len(c.flags) else []
         f = op.split(" ")
+        if pending_shift:
+            for k in [k for k, r in sh.recs.items() if r["expire"] != 0]:
+                sh.delete(k)            # the previous line shifted every record with an expiry out of the swamp
+            pending_shift = False
+        if pending_vt:
+            hist.value_types_read.add(pending_vt)   # the previous line's value read, now part of the history
+            hist.value_read_over_mixed = hist.value_read_over_mixed or pending_mixed
+            pending_vt = None
         if f[0] == "case":
             sh = Shadow()
+            hist = Hist()
         elif f[0] == "set" and len(f) == 7:
+            hist.on_set(sh, f[1], int(f[4]), int(f[5]), int(f[6]))
             sh.set(f[1], f[2], int(f[3]), int(f[4]), int(f[5]), int(f[6]))
         elif f[0] == "del" and len(f) == 2:
             sh.delete(f[1])
+        elif f[0] == "inc" and len(f) == 4 and int(f[2]) != 0:
+            hist.on_set(sh, f[1], 0, 0, int(f[3]))
+            sh.inc(f[1], int(f[2]), int(f[3]))
+        shift = f[0] == "shiftexp"
+        pending_shift = shift
+        if shift:
+            f = ["q", "expire", "asc", "0", "0", "-", "-", "u"]   # judged as a full read of the expiration index
         if f[0] != "q" or len(f) != 8:
             if impl != model:
                 mism.append(i)
             continue
         q = parse_q(f)
+        pending_vt = q[0] if q[0] in VALUE_TYPES else None
+        pending_mixed = pending_vt is not None and any(r["t"] != q[0] for r in sh.recs.values())
+        explained = lambda fl, keys: [x for x in fl if symptom(x, q, keys, sh, hist)]
         stats["queries"] += 1
         stats["by_index"][f[1] + "/" + f[2]] = stats["by_index"].get(f[1] + "/" + f[2], 0) + 1
         stats["windowed"] += 1 if (q[4] is not None or q[5] is not None) else 0
@@ -179,11 +282,12 @@ def judge(c):
             # if the implementation's own reply violates the Spec
             c.model[i] = impl
             if bad:
-                if flags:
-                    c.flags[i] = flags
-                else:
-                    c.flags[i] = []
-                    unexplained.append((i, bad))
+                ex = explained(flags, keys)
+                c.flags[i] = ex
+                for x in ex:
+                    stats["bad_pages_by_finding"][x] = stats["bad_pages_by_finding"].get(x, 0) + 1
+                if not ex:
+                    unexplained.append((i, bad + (" (the model names %s, whose symptom this page does not show)" % flags if flags else "")))
             else:
                 c.flags[i] = []
             continue
@@ -198,8 +302,13 @@ def judge(c):
                 unexplained.append((i, bad))
             continue
         c.model[i] = impl
-        if bad and not flags:
-            unexplained.append((i, bad))
+        if bad:
+            ex = explained(flags, keys)
+            for x in ex:
+                stats["bad_pages_by_finding"][x] = stats["bad_pages_by_finding"].get(x, 0) + 1
+            if not ex:
+                unexplained.append((i, bad + (" (the model names %s, whose symptom this page does not show)" % flags if flags else "")))
+            c.flags[i] = ex
         if flags and not bad:
             # same canonical page, model says Spec violated, oracle says fine: the two oracles disagree
             unexplained.append((i, "model flags %s but the Spec oracle accepts the page" % flags))
@@ -222,7 +331,15 @@ def spec_violated(rep):
             sh.set(f[1], f[2], int(f[3]), int(f[4]), int(f[5]), int(f[6]))
         elif f[0] == "del" and len(f) == 2:
             sh.delete(f[1])
-        elif f[0] == "q" and len(f) == 8 and i == last:
+        elif f[0] == "inc" and len(f) == 4:
+            sh.inc(f[1], int(f[2]), int(f[3]))
+        elif f[0] == "shiftexp":
+            if i == last:
+                f = ["q", "expire", "asc", "0", "0", "-", "-", "u"]
+            else:
+                for k in [k for k, r in sh.recs.items() if r["expire"] != 0]:
+                    sh.delete(k)
+        if f[0] == "q" and len(f) == 8 and i == last:
             if impl.startswith("r "):
                 bad = page_verdict(sh, parse_q(f), [k for k in impl[2:].split(",") if k])
                 if bad:
@@ -254,8 +371,6 @@ def run(ctx):
     c = corrs[0][2] if corrs else K.Corr()
     mism = set(c.mismatch)
     for i, why in unexplained[:1]:
-        if i in mism and getattr(ctx, "pending_mismatch", None) is not None:
-            continue   # already reported through the mismatch path
         cs = K.case_of(c, i)
         rep = K.case_replay(c, cs, upto=i)
         rep.update({"correspondence": "C07", "oracle": why})
@@ -270,8 +385,10 @@ def run(ctx):
         samples.append({"ops": [c.ops[i] for i in cs][:14], "impl": [c.impl[i] for i in cs if i < len(c.impl)][:14]})
     return K.finish(
         ctx, "proof",
-        rule=("histories = 9 corpus cases (the proved witnesses) + random cases of 6..40 ops (..76 thorough) over 3..10 keys: set "
-              "(new key or update; 13 content types; CreatedAt/UpdatedAt/ExpiredAt each present or absent), delete, and index reads "
+        rule=("histories = 11 corpus cases (the proved witnesses, sub-second windows, increment/reload/shift) + random cases of 6..40 ops "
+              "(..76 thorough) over 3..10 keys, every third on a persistent swamp: set (new key or update; 13 content types; "
+              "CreatedAt/UpdatedAt/ExpiredAt in nanoseconds, each present or absent), delete, IncrementInt64, ShiftExpiredTreasures, "
+              "close+reload, and index reads "
               "(15 index types x asc/desc x from 0..5 x limit 0..6 x optional fromTime/toTime, unary and streamed) interleaved so that "
               "indexes are built early and then maintained; every case ends with full reads of its focused indexes. A case is "
               "non-trivial when it has >= 3 ops; distinct = distinct op texts. Each read is compared with the Lean model up to ties "
